@@ -401,7 +401,13 @@ func (this *Hnsw) searchLevel(query math.Vector, entrypoint *hnswVertex, ef, lev
 
 	pqItem := utils.NewPriorityQueueItem(entrypointDistance, entrypoint)
 	candidateVertices := utils.NewMinPriorityQueue(pqItem)
-	resultVertices := utils.NewMaxPriorityQueue(pqItem)
+	resultVertices := utils.NewMaxPriorityQueue()
+	if !entrypoint.isDeleted() {
+		// A vertex whose removal is under way can still be the place to start from
+		// (it is the entrypoint until the removal has handed that over). It is
+		// traversed like any other tombstone, but it is not a result.
+		resultVertices.Push(pqItem)
+	}
 
 	visitedVertices := make(map[*hnswVertex]struct{}, ef*this.config.mMax0)
 	visitedVertices[entrypoint] = struct{}{}
@@ -409,7 +415,10 @@ func (this *Hnsw) searchLevel(query math.Vector, entrypoint *hnswVertex, ef, lev
 	for candidateVertices.Len() > 0 {
 		candidateItem := candidateVertices.Pop()
 		candidate := candidateItem.Value().(*hnswVertex)
-		lowerBound := resultVertices.Peek().Priority()
+		lowerBound := math.MaxFloat
+		if resultVertices.Len() > 0 {
+			lowerBound = resultVertices.Peek().Priority()
+		}
 
 		if candidateItem.Priority() > lowerBound {
 			break
